@@ -3,7 +3,7 @@ SPEC = {
     "coq_props": ["Properties/C15.v", "Corr/C15.v"],
     "module": "MS.Properties.C15",
     "theorems": ["C15_header_roundtrip", "C15_writes_preserve_header", "C15_guarded", "C15_creatable_storable",
-                 "C15_refuted", "C15_refuted_count", "C15_refuted_jan1"],
+                 "C15_create_guarded", "C15_unstorable_rejected", "C15_refuted_jan1"],
     "corr_require": "Require Import MS.Corr.C15.",
     "agrees": "C15.agrees",
     "in_domain": "C15.in_domain",
@@ -34,13 +34,14 @@ SPEC = {
         "the harness runs in UTC",
     ],
     "level": "proof",
-    "level_text": "Coq theorems: C15_header_roundtrip (for EVERY storable TimeBucketInfo, readHeader/load of WriteHeader's bytes returns it), "
-                  "C15_writes_preserve_header (for EVERY list of fixed/variable writes at indices >= 1 and every record length < 2^31 the header "
-                  "bytes are unchanged, via the translated IndexToOffset), C15_guarded (create, write, restart returns the created schema) and "
-                  "C15_creatable_storable (names <= 32 bytes without edge NULs, <= 1024 elements => storable). C15_refuted / _count / _jan1 "
-                  "exhibit the three defect classes: silent name truncation, panic beyond 1024 elements, a daily Jan-1 record overwriting the "
-                  "element types. Model tied by translated constants/functions and differential in-Coq evaluation of header bytes and reloaded schema.",
+    "level_text": "Coq theorems (code after the fixes d005c52, e807cb3): C15_create_guarded — for EVERY schema (names of any length/content, "
+                  "any column count, any types/timeframe/record type) and EVERY list of writes at indices >= 1, creation is refused with an error or "
+                  "the schema read back after the writes and a restart is exactly the created one; C15_unstorable_rejected — > 1024 elements or a "
+                  "name > 32 bytes / with an edge NUL is rejected at creation; C15_header_roundtrip, C15_writes_preserve_header (via the translated "
+                  "IndexToOffset), C15_guarded, C15_creatable_storable. C15_refuted_jan1 exhibits the remaining defect: a daily Jan-1 record "
+                  "(index 0) longer than 2920 bytes overwrites the element types in the header. Model tied by translated constants/functions and "
+                  "differential in-Coq evaluation of header bytes and reloaded schema.",
     "level_note": "No axioms. Trusted: Coq kernel/VM, gen translator, harness. Modelled not verified: utils/io/metadata.go NewTimeBucketInfo, "
-                  "Header.Load/WriteHeader, readHeader/load; executor/writer.go WriteBufferToFile (effect on the header region only).",
+                  "Header.Load/WriteHeader, CheckStorable, readHeader/load; catalog.AddTimeBucket (the schema check); executor/writer.go WriteBufferToFile (effect on the header region only).",
     "design_ref": "§6 C15",
 }
